@@ -390,6 +390,7 @@ func (c *Client) Close() error {
 	verifEv("cl.enter")
 	verifEv("cancel")
 	c.cancel()
+	verifEv("cl.canceled")
 
 	// block connection control
 	conn, ok := <-c.connSem
